@@ -187,6 +187,39 @@ fn promise_case<P: G>(cfg: Cfg, j: usize, tier: Tier, variant: &'static str) -> 
                     res.machinery_error("unreachable: out-of-range promise equal to an in-range one");
                 }
             }
+            // the same output twice in one batch: once under the promises it was created under, once under a substituted
+            // promise. The substituted member is not accepted alone, so the batch is not accepted in either order.
+            if base_ok {
+                let mut alts: Vec<Option<u64>> = vec![None, Some(pv.saturating_add(1)), Some(pv.wrapping_sub(1)), Some(max)];
+                alts.retain(|p2| norm(*p2) != pv && (cfg.n >= 64 || norm(*p2) >> cfg.n == 0));
+                alts.dedup();
+                for p2 in alts {
+                    let mut ps = wit.promises.clone();
+                    ps[j] = p2;
+                    let st2 = match restate(&built, built.commitments.clone(), ps, None) {
+                        Ok(s) => s,
+                        Err(_) => continue,
+                    };
+                    for honest_first in [true, false] {
+                        res.transitions += 1;
+                        let sts = if honest_first { vec![built.statement.clone(), st2.clone()] } else { vec![st2.clone(), built.statement.clone()] };
+                        let proofs = vec![P::proof_clone(&proof), P::proof_clone(&proof)];
+                        for mode in [VerifyAction::VerifyOnly, VerifyAction::RecoverAndVerify] {
+                            let mut ts = vec![CTX_A.transcript(), CTX_A.transcript()];
+                            let obs = verify_observed(&sts, &proofs, &mut ts, mode);
+                            res.executions += 1;
+                            res.validated += 1;
+                            *res.outcome_counter(&format!("same-output-twice:{}", obs.class())) += 1;
+                            if !obs.is_err() {
+                                res.violate(
+                                    format!("created={:?}/same-proof-also-under={:?}/honest-first={}/{}", p, p2, honest_first, mode_name(mode)),
+                                    format!("a batch holding the same proof under promise {:?} (created) and under {:?} was not refused: {}", p, p2, obs.describe()),
+                                );
+                            }
+                        }
+                    }
+                }
+            }
             // the same triple inside a batch, before and after a companion with / without promises
             {
                 let comp_cfg = Cfg::new(cfg.n, 1, 1, cfg.d);
@@ -379,7 +412,7 @@ pub fn run(rep: &mut Report) {
                 substitution in {None,0,1,p-1,p+1,v,v+1,2^n-1,2^n,u64::MAX}; oracle: accepted <=> value-wise equal (None = 0), out-of-range \
                 promise => error; prover accepts v==p and refuses v<p through both entry points (values mid-range, top of the range, and 0 at the last position); a promise-bearing proof is accepted under the same promises by a verifier of another capacity whenever its promise-free twin is; over F the compared element's coefficients equal the reference's \
                 (verifier-side half) and the merlin trace carries the promise vector (transcript-side half) -- both recorded as reference-binding \
-                notes (mechanisms of C02 / C04), the verdict is the acceptance matrix; the same triples are also verified inside 2-batches"
+                notes (mechanisms of C02 / C04), the verdict is the acceptance matrix; the same triples are also verified inside 2-batches, and next to themselves under a substituted promise"
         .into();
     let tier = rep.tier;
     let mut cases: Vec<Box<dyn Case>> = Vec::new();
